@@ -367,7 +367,10 @@ def run():
     trace_ok = 0
     if cases and coq_ok:
         try:
-            vals = coq_eval(c16_trace.COQ_HEADER, ["(replay_verdict %s %s)" % (t, qc) for _, t, qc, _, _ in cases])
+            # both verdicts of one trace in one expression (the term is parsed once)
+            both = coq_eval(c16_trace.COQ_HEADER, ["(let l := %s in let q := %s in (replay_verdict l q, replay_strict_verdict l q))" % (t, qc) for _, t, qc, _, _ in cases])
+            vals = [b[0] if isinstance(b, tuple) else None for b in both]
+            strict = dict((c[0], b[1]) for c, b in zip(cases, both) if isinstance(b, tuple))
         except RuntimeError as ex:
             vals = None
             ck.coverage["trace_eval_error"] = str(ex)[-600:]
@@ -390,7 +393,7 @@ def run():
         for p, term, qc, nops, a in cases:
             ops_of[p] = a["ops"]
         agreeing = [(c, v) for c, v in zip(cases, vals or []) if v == 0]
-        svals = coq_eval(c16_trace.COQ_HEADER, ["(replay_strict_verdict %s %s)" % (c[1], c[2]) for c, _ in agreeing]) if agreeing else []
+        svals = [strict.get(c[0]) for c, _ in agreeing]
         for ((p, term, qc, nops, a), _), sv in zip(agreeing, svals):
             ck.count("strict-machine", p)
             d = py[p]
